@@ -933,6 +933,23 @@ func (m *Monitors) checkSchedules(prev *vh.Snapshot, bi *BatchInfo, next *vh.Sna
 			delete(m.deletedAck, c.cmd.CreateSchedule.Id)
 		}
 	}
+	// "re-creating a schedule id is idempotent by key": a keyed create that is still in flight is excused for a
+	// refusal if, at any moment of its flight, the id existed under another key (or none). Stored rows and the
+	// create commands of this batch are both looked at (a row may come and go inside one batch).
+	for _, o := range m.s.ops {
+		if o.Done || o.Req.Kind != t_api.CreateSchedule || o.Req.CreateSchedule.IdempotencyKey == nil {
+			continue
+		}
+		id, key := o.Req.CreateSchedule.Id, string(*o.Req.CreateSchedule.IdempotencyKey)
+		if row := next.S[id]; row != nil && (row.Ik == nil || *row.Ik != key) {
+			o.Meta["otherKey"] = true
+		}
+		for _, c := range cmds {
+			if c.cmd.Kind == t_aio.CreateSchedule && c.cmd.CreateSchedule.Id == id && (c.cmd.CreateSchedule.IdempotencyKey == nil || string(*c.cmd.CreateSchedule.IdempotencyKey) != key) {
+				o.Meta["otherKey"] = true
+			}
+		}
+	}
 	// bounded fairness of the firing cycle's selection ("none skipped ... every schedule batch size"): a due
 	// schedule must not be passed over again and again by full reads that only return newer occurrences.
 	// Any starvation-free order serves it within one round of the schedules; the bound is two rounds.
@@ -1400,6 +1417,13 @@ func (m *Monitors) OnReturn(o *OpRec) {
 			r := o.Req.CompletePromise
 			if p == nil || p.State != r.State || p.CompletedOn == nil || *p.CompletedOn >= p.Timeout || *p.CompletedOn < o.CallTick || *p.CompletedOn > o.RetTick {
 				m.violate("C04", "payload:completion-201-time", fmt.Sprintf("op%d completion acknowledged 201 with %s (request in flight during ticks %d..%d)", o.Idx, p, o.CallTick, o.RetTick))
+			}
+		}
+	case t_api.CreateSchedule:
+		if st == 40901 && o.Req.CreateSchedule.IdempotencyKey != nil {
+			m.hit("schedule.keyed-create-refused-judged")
+			if _, excused := o.Meta["otherKey"]; !excused {
+				m.violate("C10,C02", "ack:keyed-schedule-create-refused", fmt.Sprintf("op%d %s was refused as 'already exists' although, throughout its flight, the schedule either did not exist or carried exactly its idempotency key", o.Idx, o.Req))
 			}
 		}
 	case t_api.CreateCallback, t_api.CreateSubscription:
